@@ -1,6 +1,6 @@
 """C07 — buffer memory layout is the WGSL layout."""
 from vlib import common
-import os
+import os, re
 
 LEVEL = "proof"
 EXPLANATION = (
@@ -11,14 +11,14 @@ EXPLANATION = (
     "Stride/TypeSize in the IR, every Offset/ArrayStride/MatrixStride decoration in the SPIR-V binary, the constant byte "
     "address of every HLSL ByteAddressBuffer store to 1-8 random leaf paths (Layout.offsetOfPath), and the offsets/"
     "strides/sizes that the C++ layout rules (Layout.cppDump, MSL spec table sizes) give the struct declarations in the "
-    "MSL text, are compared with the executable model (= spec by the theorem). A mismatch is itself a concrete failing input.")
+    "MSL text, are compared with the executable model (= spec by the theorem). A mismatch is itself a concrete failing input. GLSL (K): the back end writes buffers as std430 / std140 blocks of plain struct declarations without offsets; Layout.glslDump computes the layout those qualifiers prescribe for the declarations read from the real text, which must equal the WGSL layout (it does whenever no @align / @size moves a member; the cases where it does not are the recorded finding).")
 ASSUMPTIONS = [
     "Lean 4 kernel; axioms propext, Classical.choice, Quot.sound only",
     "Layout.spec* is my transcription of WGSL §14.4 (Memory Layout)",
     "model arithmetic is on unbounded Nat (uint32 wrap-around of sizes >= 4 GiB not modelled)",
     "Go harness: type-tree generator, IR walker, independent SPIR-V decoration reader, regex readers for HLSL store addresses and MSL struct declarations",
     "Layout.mslBuiltin/cppSizeAlign: my transcription of the MSL size/alignment tables and C++ struct layout",
-    "GLSL std430 blocks are not compared (explicit @align/@size cannot be expressed there; naga emits no offsets)",
+    "GLSL: the std430 layout (my transcription of OpenGL 4.6 7.6.2.2, Layout.glslDump) of the struct declarations the back end wrote is compared with the WGSL layout; modules using f16 are left out",
 ]
 
 N = {"quick": 2000, "thorough": 40000}
@@ -53,6 +53,41 @@ def run(ck):
     if not (len(cases) == len(impl) == len(model)):
         ck.tie_broken("c07-lines", "line count mismatch", "%d %d %d" % (len(cases), len(impl), len(model)))
         return
+    # GLSL: the std430 / std140 layout (Layout.glslDump) of the declarations the GLSL back end wrote — it writes no offsets, so
+    # this is where the members are; expected: the same WGSL numbers the MSL comparison uses
+    glsl_tally = {"agree": 0, "differ": 0, "error": 0}
+    gpath = os.path.join(out, "glsl.txt")
+    if os.path.exists(gpath) and ck.run_driver(["c07glsl"], gpath, os.path.join(out, "glslout.txt")):
+        glslout = common.read_lines(os.path.join(out, "glslout.txt"))
+        gsrc = common.read_lines(gpath)
+        seen_g = set()
+        for i, (g, b) in enumerate(zip(glslout, model)):
+            mexp = re.search(r"msl=(\[[^\]]*\])", b)
+            if not mexp or g in ("error", "bad-case line") or "enable f16" in srcs[i]:
+                # the back end refused the module, or the module uses f16 (GLSL has no 16-bit float in buffers: outside the comparison)
+                glsl_tally["error"] += 1
+                continue
+            if g == mexp.group(1):
+                glsl_tally["agree"] += 1
+                continue
+            glsl_tally["differ"] += 1
+            tree = cases[i]
+            has_attr = re.search(r"\(m \([^()]*(\([^()]*\)[^()]*)*\) (?!0 0\))\d+ \d+\)", tree) is not None or re.search(r"\) [1-9]\d* \d+\)|\) \d+ [1-9]\d*\)", tree) is not None
+            qual = gsrc[i].split(" ")[1] if gsrc[i].startswith("(glsl ") else "?"
+            cls = "%s attrs=%s" % (qual, has_attr)
+            fid = None
+            for k in ck.known:
+                mt = k.get("match", {})
+                if mt.get("kind") == "glsl-layout" and re.search(mt.get("class_regex", "$^"), cls):
+                    fid = k["id"]
+            if fid is None and cls in seen_g:
+                continue
+            seen_g.add(cls)
+            ck.violation({"kind": "glsl-layout-mismatch", "finding": fid, "class": cls, "type_tree": tree, "wgsl": srcs[i],
+                          "expected_wgsl_layout": mexp.group(1), "glsl_layout_of_the_emitted_declarations": g, "declarations": gsrc[i][:3000],
+                          "how": "the GLSL back end writes the buffer as a %s block without offset qualifiers; under that layout the members "
+                                 "of the emitted declarations are not where the WGSL layout puts them" % qual})
+    ck.extra["glsl_block_layout"] = glsl_tally
     for i, (c, a, b) in enumerate(zip(cases, impl, model)):
         nontrivial = ("(struct" in c[12:]) or ("(arr" in c) or any(
             (" %d %d)" % (x, y)) not in (" 0 0)",) for x, y in ())
